@@ -58,3 +58,17 @@ pub open spec fn cstep(c: Cfg, s: CEnc, cum: nat, p: nat, prec: nat) -> CEnc {
     } else { CEnc { bulk: bulk1, lower: nl, range: r1, sit: sit1 } }
 }
 
+// the documented sealing rule on the bookkeeping state (math copy of RangeEncoder::seal)
+pub open spec fn seal_carry(c: Cfg, s: CEnc) -> bool { s.lower + TH(c) - 1 >= M(c) }
+pub open spec fn seal_pw(c: Cfg, s: CEnc) -> nat { (((s.lower + TH(c) - 1) as nat) % M(c)) / TH(c) }
+pub open spec fn seal_two(c: Cfg, s: CEnc) -> bool { ((s.lower + s.range) % M(c)) / TH(c) == seal_pw(c, s) }
+pub open spec fn seal_pending(c: Cfg, s: CEnc) -> Seq<nat> {
+    match s.sit {
+        Sit::Normal => Seq::empty(),
+        Sit::Inverted(n, first) => if seal_carry(c, s) { seq![first + 1] + rep(0, (n - 1) as nat) } else { seq![first] + rep((W(c) - 1) as nat, (n - 1) as nat) },
+    }
+}
+pub open spec fn seal_seq(c: Cfg, s: CEnc) -> Seq<nat> {
+    seal_pending(c, s) + seq![seal_pw(c, s)] + (if seal_two(c, s) { seq![0nat] } else { Seq::empty() })
+}
+
